@@ -56,6 +56,8 @@ for name, t in typemap.get_global_types().items() if hasattr(typemap, "get_globa
     tm[name] = plain(dict((f, getattr(t, f)) for f in ("name", "base", "sgroup", "c_type", "cxx_type", "f_type", "f_kind",
                                                          "f_c_type", "f_cast", "f_module", "sh_type", "idtor")
                           if hasattr(t, f)))
-out = {"lang": lang, "rows": rows, "raw": raw, "CHelpers": plain(whelpers.CHelpers), "FHelpers": plain(whelpers.FHelpers),
+from shroud import wrapp  # noqa
+py_raw = [plain(dict(r)) for r in wrapp.py_statements]
+out = {"py_raw": py_raw, "lang": lang, "rows": rows, "raw": raw, "CHelpers": plain(whelpers.CHelpers), "FHelpers": plain(whelpers.FHelpers),
        "typemaps": tm, "fmt": plain(lib.fmtdict._to_full_dict())}
 json.dump(out, sys.stdout)
